@@ -35,7 +35,9 @@ class LogDifferenceRateTransform(Transform):
         raise NotImplementedError
 
     def log_abs_det_jacobian(self, x, y) -> torch.Tensor:
-        return -y.sum(-1)
+        # In pre-order the Jacobian is triangular with diagonal 1/r_i
+        # (y_i = log r_i - log r_parent(i) and a parent precedes its children)
+        return -x.log().sum(-1)
 
 
 @register_class
